@@ -308,7 +308,7 @@ def child_parses(spec, jobs):
                 rep["raised"] = type(raised).__name__
                 if isinstance(raised, PSyntaxError):
                     loc = raised.location
-                    s, e = loc.start_position, loc.end_position
+                    s, _e = loc.start_position, loc.end_position
                     if not (isinstance(s, int) and 0 <= s <= len(text)):
                         rep["probs"].append(f"raised SyntaxError start {s} out of bounds")
                     if hasattr(p, "errors"):
@@ -585,7 +585,7 @@ def one_run(vseed, idx, tier):
         if rep["probs"] and rep.get("kf"):
             stats.inc("attributed." + rep["kf"])
         elif rep["probs"] and bad is None:
-            k = len(sigs)  # not used for indexing
+            len(sigs)  # not used for indexing
             ji = jobs.index(job)
             bad = {"spec": spec, "jobs": jobs[: ji + 1] if spec.get("reuse") else [job],
                    "report": rep}
